@@ -11,8 +11,8 @@ instance {ε α : Type} [DecidableEq ε] [DecidableEq α] : DecidableEq (Except 
   | .ok _, .error _ => isFalse (by intro e; cases e)
   | .error _, .ok _ => isFalse (by intro e; cases e)
 
-theorem parseAll_mem {now : Int} : ∀ {st : List (Identity × RawEntry)} {ps : List Peer},
-    parseAll now st = .ok ps → ∀ p, p ∈ ps ↔ ∃ i e, (i, e) ∈ st ∧ mkPeer now i e = .ok p := by
+theorem parseAll_mem {u now : Int} : ∀ {st : List (Identity × RawEntry)} {ps : List Peer},
+    parseAll u now st = .ok ps → ∀ p, p ∈ ps ↔ ∃ i e, (i, e) ∈ st ∧ mkPeer u now i e = .ok p := by
   intro st
   induction st with
   | nil =>
@@ -24,11 +24,11 @@ theorem parseAll_mem {now : Int} : ∀ {st : List (Identity × RawEntry)} {ps : 
     intro ps h p
     obtain ⟨i, e⟩ := x
     simp only [parseAll] at h
-    cases hm : mkPeer now i e with
+    cases hm : mkPeer u now i e with
     | error x => simp [hm] at h
     | ok q =>
       simp only [hm] at h
-      cases hr : parseAll now rest with
+      cases hr : parseAll u now rest with
       | error x => simp [hr] at h
       | ok qs =>
         simp only [hr] at h
@@ -50,7 +50,7 @@ theorem parseAll_mem {now : Int} : ∀ {st : List (Identity × RawEntry)} {ps : 
             exact List.mem_cons_self
           · exact List.mem_cons_of_mem _ ((ih hr p).mpr ⟨j, f, hjf, hmk⟩)
 
-theorem mkPeer_id {now : Int} {i : Identity} {e : RawEntry} {p : Peer} (h : mkPeer now i e = .ok p) : p.id = i := by
+theorem mkPeer_id {u now : Int} {i : Identity} {e : RawEntry} {p : Peer} (h : mkPeer u now i e = .ok p) : p.id = i := by
   unfold mkPeer at h
   cases e with
   | notMapping => simp at h
@@ -62,12 +62,19 @@ theorem mkPeer_id {now : Int} {i : Identity} {e : RawEntry} {p : Peer} (h : mkPe
       · simp at h
       · split at h
         · simp at h
-        · injection h with h; subst h; rfl
-        · injection h with h; subst h; rfl
+        · split at h
+          · simp at h
+          · split at h
+            · simp at h
+            · injection h with h; subst h; rfl
+          · split at h
+            · simp at h
+            · injection h with h; subst h; rfl
 
-/-- a well-formed record parses to its peer, whatever the clock. -/
-theorem mkPeer_toRaw (now : Int) (i : Identity) (r : Rec) : mkPeer now i r.toRaw = .ok (r.toPeer i) := by
-  simp [mkPeer, Rec.toRaw, Rec.toPeer, pyInt, prioView, prioReprErr]
+/-- a well-formed record whose lifetime and deadline are representable parses to its peer, whatever the clock. -/
+theorem mkPeer_toRaw (u now : Int) (i : Identity) (r : Rec) (h1 : tdOk r.lifetime = true)
+    (h2 : dtOk u (r.lastseen + r.lifetime * u) = true) : mkPeer u now i r.toRaw = .ok (r.toPeer i) := by
+  simp [mkPeer, Rec.toRaw, Rec.toPeer, pyInt, prioView, prioReprErr, h1, h2]
 
 theorem minList_spec : ∀ {l : List Int} {m : Int}, minList l = some m → m ∈ l ∧ ∀ x ∈ l, m ≤ x := by
   intro l
